@@ -5,7 +5,7 @@
 # and runs every check on it (must be silent).
 export GOFLAGS=-mod=mod GOPROXY=off GOSUMDB=off GOTOOLCHAIN=local; unset GOWORK
 t=$1; label=$2; xx=${t#T}
-for pair in A:22 B:23; do
+for pair in ${PAIRS:-A:22 B:23}; do
   c=${pair%%:*}; n=${pair##*:}; d=/tmp/wt/$t/case$c
   [ -f $d/twin.diff ] || continue
   name=$label-C$xx-seed$n
